@@ -482,3 +482,129 @@ func catchTryOpen(path string) (c *catchInst, ok bool) {
 	}
 	return c, true
 }
+
+// catchSizedDataset writes a generated catchment data set that offers EXACTLY nActions management actions (used by
+// C13 and C09 to put the action count on and around the 64-bit word boundaries of the action encoding).  Which
+// actions a planning unit offers is decided by the data the same way the model decides it: a river bank restoration
+// iff the unit's riparian vegetation is below the 0.75 target, a wetland iff the Actions table has a Wetland row for
+// it, a hill-slope restoration iff its Hillslope row has a non-zero original erosion, a gully restoration iff the
+// Gullies table lists a gully for it.  Every unit gets 1..3 of the four (ids in random order); rows are jittered
+// copies of shipped rows.  The data set is loaded through the real loader and regenerated (at most 20 times) until
+// the running model offers exactly nActions actions; desc reports the composition.
+func catchSizedDataset(p *prng, nActions int) (metaPath string, cleanup func(), desc J) {
+	if nActions < 1 {
+		panic("catchSizedDataset: at least one action")
+	}
+	for attempt := 0; attempt < 20; attempt++ {
+		path, clean, d := catchSizedDatasetOnce(p, nActions)
+		if c, ok := catchTryOpen(path); ok && c.nact == nActions {
+			d["attempts"] = attempt + 1
+			return path, clean, d
+		}
+		clean()
+	}
+	panic("catchSizedDataset: could not generate a data set with " + strconv.Itoa(nActions) + " management actions")
+}
+
+func catchSizedDatasetOnce(p *prng, nActions int) (metaPath string, cleanup func(), desc J) {
+	dir, err := os.MkdirTemp("", "verif-sized-")
+	if err != nil {
+		panic(err)
+	}
+	cleanup = func() { os.RemoveAll(dir) }
+	jit := func(v float64) float64 { return v * (0.7 + 0.6*p.float()) }
+	f := func(v float64) string { return strconv.FormatFloat(v, 'g', -1, 64) }
+	subT := [][]float64{ // DownstreamId, ChannelLength, ChannelSlope, BankfullFlow, ChannelWidth, ChannelDepth, FloodplainWidth, Veg, Area, BufferArea, HillslopeArea
+		{15, 10322, 0.000024, 8.876609127, 14.0095989, 5.03800049, 904.4842277, 0.308863, 1643333, 151005, 17435.3},
+		{16, 20702, 0.000120348, 0.088007572, 3.034239867, 0.24099884, 379.9615247, 0.136031, 5919454, 178202, 980041},
+		{16, 14114, 0.000194278, 0.024524427, 1.000685636, 0.16199951, 748.9010539, 0.238881, 3518302, 69012.7, 21082.9},
+	}
+	lowVeg := []float64{0.05, 0.2499, 0.25, 0.3, 0.5, 0.7499, 0.114667, 0.308863}
+	highVeg := []float64{0.75, 0.7501, 0.9, 1}
+	sub := []string{"Subcatchment,DownstreamId,ChannelLength,ChannelSlope,BankfullFlow,ChannelWidth,ChannelDepth,FloodplainWidth,ProportionOfRiparianVegetation,SubcatchmentArea,RiparianBufferArea,HillslopeArea"}
+	gul := []string{"Identifier,Subcatchment,Volume,ChannelLengh"}
+	act := []string{"Subcatchment,ActionType,OpportunityCost,ImplementationCost,ParticulateNitrogenOriginal,ParticulateNitrogenActioned,HillslopeErosionOriginal,HillslopeErosionActioned,FineSedimentOriginal,FineSedimentActioned,DissolvedNitrogenOriginal,DissolvedNitrogenActioned,DNRemovalEfficiency,PNRemovalEfficiency,SedimentRemovalEfficiency"}
+	cost := func(base float64) float64 {
+		c := float64(int64(jit(base)))
+		if p.chance(0.3) {
+			c += 0.37
+		}
+		return c
+	}
+	used := map[int]bool{}
+	gid, nPU := 1, 0
+	perType := map[string]int{}
+	for remaining := nActions; remaining > 0; {
+		id := 3 + p.intn(4*nActions+60)
+		if used[id] {
+			continue
+		}
+		used[id] = true
+		nPU++
+		k := 1 + p.intn(3)
+		if k > remaining {
+			k = remaining
+		}
+		remaining -= k
+		// k of the four action types, chosen at random
+		kinds := []string{"Gully", "Hillslope", "Riparian", "Wetland"}
+		for i := len(kinds) - 1; i > 0; i-- {
+			j := p.intn(i + 1)
+			kinds[i], kinds[j] = kinds[j], kinds[i]
+		}
+		has := map[string]bool{}
+		for _, kd := range kinds[:k] {
+			has[kd] = true
+			perType[kd]++
+		}
+		t := subT[p.intn(len(subT))]
+		veg := highVeg[p.intn(len(highVeg))]
+		if has["Riparian"] {
+			veg = lowVeg[p.intn(len(lowVeg))]
+		}
+		sub = append(sub, strings.Join([]string{strconv.Itoa(id), f(t[0]), f(jit(t[1])), f(jit(t[2])), f(jit(t[3])), f(jit(t[4])), f(jit(t[5])),
+			f(jit(t[6])), f(veg), f(jit(t[8])), f(jit(t[9])), f(jit(t[10]))}, ","))
+		row := func(kind string, v ...float64) {
+			cells := []string{strconv.Itoa(id), kind}
+			for _, x := range v {
+				cells = append(cells, f(x))
+			}
+			act = append(act, strings.Join(cells, ","))
+		}
+		if has["Gully"] {
+			for g := 1 + p.intn(2); g > 0; g-- {
+				gul = append(gul, strings.Join([]string{strconv.Itoa(gid), strconv.Itoa(id), f(jit([]float64{3859.73, 278538.89}[p.intn(2)])), f(jit([]float64{178.417, 1346.508}[p.intn(2)]))}, ","))
+				gid++
+			}
+			pn := jit(1.76)
+			dn := jit(0.0072)
+			row("Gully", cost(0), cost(167834), pn, pn*(0.1+0.5*p.float()), 0, 0, 0, 0, dn, dn*(0.2+0.6*p.float()), 0, 0, 0)
+		}
+		if has["Hillslope"] {
+			pn := jit(10.5)
+			er := jit(1267.84)
+			dn := jit(5.2)
+			row("Hillslope", cost(96419), cost(4700000), pn, pn*(0.2+0.6*p.float()), er, er*(0.05+0.3*p.float()), 0, 0, dn, dn*(0.8+0.19*p.float()), 0, 0, 0)
+		}
+		if has["Riparian"] {
+			fs := 0.1 + 0.1*p.float()
+			dn := jit(2.0e-7)
+			row("Riparian", cost(5722), cost(724823), 0, 0, 0, 0, fs, fs*(0.8+0.6*p.float()), dn, dn*(0.4+0.4*p.float()), []float64{0, 0.5, 0.632175983, 1}[p.intn(4)], 0, 0)
+		}
+		if has["Wetland"] {
+			eff := []float64{0, 0.5, 0.98, 0.99, 1}
+			row("Wetland", cost(6331), cost(2451354), 0, 0, 0, 0, 0, 0, 0, 0, eff[p.intn(5)], eff[p.intn(5)], eff[p.intn(5)])
+		}
+	}
+	write := func(n string, lines []string) {
+		if err := os.WriteFile(filepath.Join(dir, n), []byte(strings.Join(lines, "\n")+"\n"), 0o666); err != nil {
+			panic(err)
+		}
+	}
+	write("SizedSubcatchments.csv", sub)
+	write("SizedGullies.csv", gul)
+	write("SizedActions.csv", act)
+	write("SizedModel.csv", []string{"TableName, FilePath", "Subcatchments, SizedSubcatchments.csv", "Gullies, SizedGullies.csv", "Actions, SizedActions.csv"})
+	return filepath.Join(dir, "SizedModel.csv"), cleanup, J{"actions": nActions, "planning_units": nPU, "gullies": gid - 1,
+		"gully_restorations": perType["Gully"], "hillslope_restorations": perType["Hillslope"], "riverbank_restorations": perType["Riparian"], "wetlands": perType["Wetland"]}
+}
